@@ -918,7 +918,10 @@ func (p *Parser) parseQualifiedName() (string, error) {
 	if !p.isIdentifier() && !p.isNonReservedKeyword() {
 		return "", p.expectedError("identifier")
 	}
-	name := p.currentToken.Literal
+	// The parts are written to a builder: appending to a string in the loop copies
+	// the name so far for every part, which is quadratic in the number of parts.
+	var name strings.Builder
+	name.WriteString(p.currentToken.Literal)
 	p.advance()
 
 	// Check for schema.table or db.schema.table
@@ -927,11 +930,12 @@ func (p *Parser) parseQualifiedName() (string, error) {
 		if !p.isIdentifier() && !p.isNonReservedKeyword() {
 			return "", p.expectedError("identifier after .")
 		}
-		name = name + "." + p.currentToken.Literal
+		name.WriteByte('.')
+		name.WriteString(p.currentToken.Literal)
 		p.advance()
 	}
 
-	return name, nil
+	return name.String(), nil
 }
 
 // Accepts IDENT or non-reserved keywords that can be used as table names
